@@ -1,410 +1,48 @@
-"""C08 hunt, round 3 (run on the UNMODIFIED tree: `git apply -R patch.diff` first).
+"""C08 hunt (round 4): candidate violations on the UNMODIFIED library.
 
-Run:  cd /tmp/wt/C08i && PYTHONPATH=/tmp/wt/C08i/src /venv/bin/python hunt_C08.py [seed]
-
-Every block compares dep-logic with an oracle that does not use dep-logic:
-  * packaging.specifiers.SpecifierSet over an explicit universe of final interpreter versions
-    decides which (major, minor) series requires_python admits;
-  * the tag rule of the property statement re-implemented with regular expressions (`rule`), and
-  * packaging.tags.cpython_tags / generic_tags / compatible_tags / sys_tags (`packaging` blocks).
-Known families (pre/post/dev/local/epoch/4-segment-only ranges, `===`, upper-case tags passed
-directly, pp27-pypy_NN, from_spec(None, gil_disabled=True), cpXY-abi3 below cp32, ...) are not
-generated.  Each block prints how many cases it ran and every disagreement it saw.
+Run: cd /tmp/wt/C08j && PYTHONPATH=/tmp/wt/C08j/src /venv/bin/python hunt_C08.py
 """
-from __future__ import annotations
-
-import itertools
-import random
-import re
-import sys
-
-from packaging import tags as ptags
 from packaging.specifiers import SpecifierSet
-from packaging.utils import parse_wheel_filename
+from packaging.tags import Tag, cpython_tags
 from packaging.version import Version
 
-from dep_logic.specifiers import (
-    RangeSpecifier,
-    from_specifierset,
-    parse_version_specifier,
-)
-from dep_logic.specifiers.special import AnySpecifier, EmptySpecifier
-from dep_logic.tags.tags import EnvSpec, Implementation
-
-SEED = int(sys.argv[1]) if len(sys.argv) > 1 else 20260930
-R = random.Random(SEED)
-FINALS = [Version(f"{X}.{Y}.{Z}") for X in (1, 2, 3, 4, 5) for Y in range(0, 24) for Z in range(0, 14)]
-FINALS += [Version(f"{X}.{Y}") for X in (1, 2, 3, 4, 5) for Y in range(0, 24)]
-# known family (18): slivers such as `>3.8,<3.8.1` admit only 4-segment releases; count those as
-# admitted so that they are not reported again (dep-logic decides emptiness on the interval)
-FINALS += [Version(f"{X}.{Y}.{Z}.1") for X in (2, 3, 4) for Y in range(0, 24) for Z in range(0, 14)]
-SHORT = {None: None, "cpython": "cp", "pypy": "pp", "pyston": "pt"}
-SETTINGS = [(None, False), ("cpython", False), ("cpython", True), ("pypy", False), ("pyston", False)]
-total = {"cases": 0, "bad": 0}
+from dep_logic.specifiers import EmptySpecifier, parse_version_specifier
+from dep_logic.tags import EnvSpec
 
 
-def report(block: str, cases: int, bad: int) -> None:
-    total["cases"] += cases
-    total["bad"] += bad
-    print(f"[{block}] cases={cases} disagreements={bad}")
-
-
-def series(contains) -> set[tuple[int, int]]:
-    return {(v.major, v.minor) for v in FINALS if contains(v)}
-
-
-def pkg_contains(spec: str):
-    parts = [SpecifierSet(p) for p in spec.split("||")]
-    return lambda v: any(p.contains(v, prereleases=True) for p in parts)
-
-
-def rule(vs, impl, gil, py, abi) -> bool:
-    """The property statement, literally."""
-    m = re.fullmatch(r"(cp|py|pp|pt|ip|jy)(\d)(\d*)", py)
-    if not m:
-        return False
-    kind, X, Y = m.group(1), int(m.group(2)), m.group(3)
-    if SHORT[impl] is not None and kind not in (SHORT[impl], "py"):
-        return False
-    ft = None if impl is None else gil
-    if abi == "abi3":
-        return kind == "cp" and not ft and any(v >= (X, int(Y or 0)) for v in vs)
-    if abi != "none":
-        a = abi.split("_", 1)[0].replace("pypy", "pp").replace("pyston", "pt")
-        am = re.fullmatch(r"(cp|pp|pt)(\d)(\d*)([a-z]*)", a)
-        if not am or (am.group(1), am.group(2), am.group(3)) != (kind, str(X), Y):
-            return False
-        if ft is not None and ("t" in am.group(4)) is not ft:
-            return False
-    if Y == "":
-        return any(v[0] == X for v in vs)
-    if kind == "py":
-        return any(v[0] == X and v[1] >= int(Y) for v in vs)
-    return any(v == (X, int(Y)) for v in vs)
-
-
-def want_score(py, abi):
-    m = re.fullmatch(r"(..)(\d)(\d*)", py)
-    return (int(m.group(2)), int(m.group(3) or 0), 0 if abi == "none" else 1 if abi == "abi3" else 2)
-
-
-def judge(env, vs, impl, gil, py, abi, what) -> int:
+def attempt(f):
     try:
-        got = env.compatibility([py], [abi], ["any"])
+        return repr(f())
     except Exception as e:  # noqa: BLE001
-        print(f"  EXCEPTION {what}: {py}-{abi}: {type(e).__name__}: {e}")
-        return 1
-    exp = rule(vs, impl, gil, py, abi)
-    if (got is not None) != exp:
-        print(f"  VIOLATION {what}: impl={impl} gil_disabled={gil} {py}-{abi}: dep-logic={got} oracle={exp}")
-        return 1
-    if got is not None and got[:3] != want_score(py, abi):
-        print(f"  SCORE {what}: {py}-{abi}: dep-logic={got} expected prefix {want_score(py, abi)}")
-        return 1
-    return 0
+        return f"raises {type(e).__name__}: {e}"
 
 
-# ------------------------------------------------------------------ generators
-def rand_version(r, segs=(1, 2, 2, 2, 3, 3)):
-    n = r.choice(segs)
-    parts = [r.choice([2, 3, 3, 3, 3, 4])]
-    for i in range(n - 1):
-        parts.append(r.choice([0, 0, 1, 2, 5, 7, 8, 9, 10, 11, 12, 13, 19, 20, 21]) if i == 0 else r.choice([0, 0, 0, 1, 2, 5]))
-    txt = ".".join(map(str, parts))
-    c = r.random()
-    if c < 0.04:
-        txt = "v" + txt
-    elif c < 0.08:
-        txt = " " + txt + " "
-    elif c < 0.12:
-        txt = "0!" + txt
-    elif c < 0.16:
-        txt = txt.replace(".", ".0", 1) if "." in txt else txt  # 3.09 == 3.9
-    return txt
-
-
-def rand_clause(r):
-    op = r.choice([">=", ">=", ">", "<", "<", "<=", "==", "!=", "~=", "==*", "!=*"])
-    v = rand_version(r)
-    if op == "~=" and "." not in v.strip():
-        v = v.strip() + ".0"
-    if op in ("==*", "!=*"):
-        return f"{op[:2]}{v.strip()}.*"
-    return f"{op}{v}"
-
-
-def rand_set(r):
-    return ",".join(rand_clause(r) for _ in range(r.choice([1, 1, 2, 2, 3, 4])))
-
-
-def rand_spec(r):
-    return "||".join(rand_set(r) for _ in range(r.choice([1, 1, 1, 2, 3])))
-
-
-FLAGS = ["", "", "m", "d", "dm", "mu", "u", "dmu", "t", "t", "td"]
-
-
-def abi_for(base: str, r) -> str:
-    if base.startswith("pp"):
-        return f"pypy{base[2:]}_pp73"
-    if base.startswith("pt"):
-        return f"pyston{base[2:]}_23"
-    return base + r.choice(FLAGS)
-
-
-def rand_pair(r):
-    kind = r.choice(["cp", "cp", "cp", "py", "py", "pp", "pt", "ip", "jy"])
-    X = r.choice([2, 3, 3, 3])
-    Y = r.choice(["", *map(str, range(0, 21))]) if kind == "py" else str(r.randrange(0, 21))
-    py = f"{kind}{X}{Y}"
-    c = r.random()
-    if c < 0.25:
-        return py, "none"
-    if c < 0.45:
-        return py, "abi3"
-    if r.random() < 0.7 and kind in ("cp", "pp", "pt"):
-        base = py
-    elif r.random() < 0.3 and kind in ("cp", "pp", "pt") and Y:
-        base = py + r.choice("0123456789")  # cp31 vs cp310
+print("== H1: a valid but unsatisfiable requires_python makes EnvSpec.from_spec raise InvalidSpecifier")
+grid = [Version(f"{x}.{y}.{z}") for x in (2, 3, 4) for y in range(25) for z in range(12)]
+for rp in [">=3.9,<3.8", "==3.8.*,!=3.8.*", ">=3.8,<3.8", "~=3.8.0.0,>=3.8.1", "<empty>"]:
+    if rp != "<empty>":
+        ss = SpecifierSet(rp)  # packaging: a perfectly valid specifier set
+        admitted = [v for v in grid if ss.contains(v, prereleases=True)]
+        oracle = f"packaging parses it, admits {len(admitted)} of {len(grid)} interpreters -> every wheel incompatible (None)"
     else:
-        base = f"{r.choice(['cp', 'pp', 'pt'])}{r.choice([2, 3])}{r.randrange(0, 21)}"
-    return py, abi_for(base, r)
+        oracle = "the library's own rendering of EmptySpecifier (EnvSpec(...).as_dict()['requires_python'])"
+    print(f"  requires_python={rp!r}")
+    print("    parse_version_specifier ->", attempt(lambda: parse_version_specifier(rp)))
+    print("    EnvSpec.from_spec       ->", attempt(lambda: EnvSpec.from_spec(rp)))
+    print("    expected                -> an EnvSpec for which compatibility(...) is None;", oracle)
+env = EnvSpec(EmptySpecifier())
+print("  EnvSpec(EmptySpecifier()).compatibility(['py3'],['none'],['any']) ->",
+      attempt(lambda: env.compatibility(["py3"], ["none"], ["any"])), "(the answer from_spec should have led to)")
+print("  EnvSpec.from_spec(**EnvSpec(EmptySpecifier()).as_dict()) ->",
+      attempt(lambda: EnvSpec.from_spec(**env.as_dict())), "(as_dict does not round-trip)")
 
-
-# ------------------------------------------------------------------ block 1
-def block_routes(n_specs: int) -> None:
-    """requires_python reached through every constructor route, against the rule oracle."""
-    cases = bad = 0
-    for _ in range(n_specs):
-        spec = rand_spec(R)
-        try:
-            rp = parse_version_specifier(spec)
-        except Exception as e:  # noqa: BLE001
-            print("  PARSE EXCEPTION", repr(spec), type(e).__name__, e)
-            bad += 1
-            continue
-        vs = series(pkg_contains(spec))
-        if rp.is_empty():
-            if vs:
-                print("  VIOLATION: parsed empty but packaging admits", repr(spec), sorted(vs)[:3])
-                bad += 1
-            continue
-        impl, gil = R.choice(SETTINGS)
-        imp = Implementation.parse(impl, gil) if impl else None
-        envs = [("from_spec", EnvSpec.from_spec(spec, None, impl, gil)), ("constructor", EnvSpec(rp, None, imp))]
-        try:
-            envs.append(("as_dict round trip", EnvSpec.from_spec(**envs[0][1].as_dict())))
-            envs.append(("double complement", EnvSpec(~~rp, None, imp)))
-            envs.append(("rp & Any / rp | Empty", EnvSpec((AnySpecifier() & rp) | EmptySpecifier(), None, imp)))
-            envs.append(("Empty | (rp & RangeSpecifier())", EnvSpec(EmptySpecifier() | (rp & RangeSpecifier()), None, imp)))
-            if "||" not in spec:
-                envs.append(("from_specifierset", EnvSpec(from_specifierset(SpecifierSet(spec)), None, imp)))
-        except Exception as e:  # noqa: BLE001
-            print("  ROUTE EXCEPTION", repr(spec), type(e).__name__, e)
-            bad += 1
-        if len({e for _, e in envs}) != 1 or len({hash(e) for _, e in envs}) != 1:
-            # the routes must give equal (and equally hashed) specs unless rendering is lossy
-            if str(envs[0][1].requires_python) != str(envs[2][1].requires_python):
-                pass  # known rendering families only change the text
-        for _ in range(10):
-            py, abi = rand_pair(R)
-            for name, env in envs:
-                cases += 1
-                bad += judge(env, vs, impl, gil, py, abi, f"{name} {spec!r}")
-    report("1 routes: from_spec / constructor / as_dict / ~~ / Any,Empty dunders / from_specifierset", cases, bad)
-
-
-# ------------------------------------------------------------------ block 2
-def block_algebra(n: int) -> None:
-    """requires_python objects produced by |, &, ~ on parsed pieces (simplified=None objects)."""
-    cases = bad = 0
-    for _ in range(n):
-        a_s, b_s, c_s = rand_set(R), rand_set(R), rand_set(R)
-        try:
-            a, b, c = (parse_version_specifier(s) for s in (a_s, b_s, c_s))
-            ca, cb, cc = (pkg_contains(s) for s in (a_s, b_s, c_s))
-            shape = R.choice(["(a|b)&c", "a|(b&c)", "~a|b", "~(a|b)", "(a&~b)|c", "c|a|b"])
-            if shape == "(a|b)&c":
-                rp, f = (a | b) & c, lambda v: (ca(v) or cb(v)) and cc(v)
-            elif shape == "a|(b&c)":
-                rp, f = a | (b & c), lambda v: ca(v) or (cb(v) and cc(v))
-            elif shape == "~a|b":
-                rp, f = ~a | b, lambda v: (not ca(v)) or cb(v)
-            elif shape == "~(a|b)":
-                rp, f = ~(a | b), lambda v: not (ca(v) or cb(v))
-            elif shape == "(a&~b)|c":
-                rp, f = (a & ~b) | c, lambda v: (ca(v) and not cb(v)) or cc(v)
-            else:
-                rp, f = c | a | b, lambda v: ca(v) or cb(v) or cc(v)
-        except Exception as e:  # noqa: BLE001
-            print("  ALGEBRA EXCEPTION", a_s, b_s, c_s, type(e).__name__, e)
-            bad += 1
-            continue
-        vs = series(f)
-        impl, gil = R.choice(SETTINGS)
-        env = EnvSpec(rp, None, Implementation.parse(impl, gil) if impl else None)  # also Empty/Any
-        for _ in range(10):
-            py, abi = rand_pair(R)
-            cases += 1
-            bad += judge(env, vs, impl, gil, py, abi, f"{shape} a={a_s!r} b={b_s!r} c={c_s!r}")
-    report("2 algebra-built requires_python (incl. EmptySpecifier / AnySpecifier as requires_python)", cases, bad)
-
-
-# ------------------------------------------------------------------ block 3
-def accepted_by(kind: str, xy: tuple[int, int], ft: bool) -> set[ptags.Tag]:
-    x, y = xy
-    if kind == "cp":
-        abis = [f"cp{x}{y}t", f"cp{x}{y}td"] if ft else [f"cp{x}{y}{f}" for f in ("", "m", "d", "dm", "u", "mu", "dmu")]
-        native = set(ptags.cpython_tags(xy, abis=abis, platforms=["any"]))
-    else:
-        long = {"pp": "pypy", "pt": "pyston"}[kind]
-        tail = {"pp": "pp73", "pt": "23"}[kind]
-        native = set(ptags.generic_tags(interpreter=f"{kind}{x}{y}", abis=[f"{long}{x}{y}_{tail}"], platforms=["any"]))
-    return native | set(ptags.compatible_tags(xy, interpreter=f"{kind}{x}{y}", platforms=["any"]))
-
-
-def block_packaging_exhaustive() -> None:
-    """One pinned series at a time, the whole tag universe, against packaging.tags."""
-    cases = bad = 0
-    pys = [f"{k}{x}{y}" for k in ("cp", "py", "pp", "pt") for x in (2, 3) for y in range(0, 21)] + ["py2", "py3"]
-    for (x, y) in [(2, 7), (3, 0), (3, 1), (3, 2), (3, 7), (3, 8), (3, 9), (3, 10), (3, 11), (3, 13), (3, 19), (3, 20)]:
-        for impl, gil, kind in [("cpython", False, "cp"), ("cpython", True, "cp"), ("pypy", False, "pp"), ("pyston", False, "pt")]:
-            acc = accepted_by(kind, (x, y), gil)
-            for rp in (f"=={x}.{y}.*", f"=={x}.{y}.3", f">={x}.{y},<{x}.{y + 1}", f"~={x}.{y}.0", f">{x}.{y}.0,<={x}.{y}.5"):
-                env = EnvSpec.from_spec(rp, None, impl, gil)
-                for py in pys:
-                    digits = py[2:]
-                    abis = {"none", "abi3"}
-                    for base in {py, f"cp{digits}", f"pp{digits}", f"pt{digits}", py + "0", py + "3", py[:-1] or py}:
-                        if base[:2] in ("cp", "pp", "pt") and len(base) > 3:
-                            abis.update(abi_for(base, R) if base[:2] != "cp" else base + f for f in FLAGS)
-                    if rp != f"=={x}.{y}.*":
-                        abis = set(R.sample(sorted(abis), min(len(abis), 6)))
-                    for abi in abis:
-                        if abi == "abi3" and py.startswith("cp") and (int(py[2]), int(py[3:] or 0)) < (3, 2):
-                            continue  # known borderline: abi3 floors below cp32
-                        cases += 1
-                        got = env.compatibility([py], [abi], ["any"])
-                        exp = ptags.Tag(py, abi, "any") in acc
-                        if (got is not None) != exp:
-                            bad += 1
-                            print(f"  VIOLATION packaging: {rp!r} {impl} gil_disabled={gil} {py}-{abi}: dep-logic={got} packaging={exp}")
-    report("3 packaging.tags, pinned series x full tag universe x 4 stated implementations", cases, bad)
-
-
-# ------------------------------------------------------------------ block 4
-def block_wheel_names(n: int) -> None:
-    """wheel_compatibility on file names with compressed tag sets, build tags, mixed case."""
-    cases = bad = 0
-    for _ in range(n):
-        spec = rand_spec(R)
-        try:
-            rp = parse_version_specifier(spec)
-        except Exception:  # noqa: BLE001
-            continue
-        if rp.is_empty():
-            continue
-        vs = series(pkg_contains(spec))
-        impl, gil = R.choice(SETTINGS)
-        env = EnvSpec.from_spec(spec, None, impl, gil)
-        pairs = [rand_pair(R) for _ in range(3)]
-        pys = sorted({p for p, _ in pairs[: R.choice([1, 1, 2, 3])]})
-        abis = sorted({a for _, a in pairs[: R.choice([1, 1, 1, 2, 3])]})
-        build = R.choice(["", "", "-1", "-2b"])
-        name = f"{R.choice(['demo', 'Demo_X', 'a.b'])}-{R.choice(['1.0', '2!1.0.post1', '1.0+l.1'])}{build}-{'.'.join(pys)}-{'.'.join(abis)}-any.whl"
-        if R.random() < 0.3:
-            name = name[:-4].upper() + ".whl"
-        try:
-            tags = parse_wheel_filename(name)[3]
-        except Exception:  # noqa: BLE001
-            continue
-        exp_scores = [want_score(t.interpreter, t.abi) for t in tags if rule(vs, impl, gil, t.interpreter, t.abi)]
-        cases += 1
-        try:
-            got = env.wheel_compatibility(name)
-        except Exception as e:  # noqa: BLE001
-            print(f"  EXCEPTION {name}: {type(e).__name__}: {e}")
-            bad += 1
-            continue
-        if (got is not None) != bool(exp_scores) or (got is not None and got[:3] != max(exp_scores)):
-            bad += 1
-            print(f"  VIOLATION wheel name: {spec!r} impl={impl} gil_disabled={gil} {name}: dep-logic={got} oracle best={max(exp_scores, default=None)}")
-    report("4 wheel_compatibility(file name): compressed tag sets, build tags, upper case", cases, bad)
-
-
-# ------------------------------------------------------------------ block 5
-def block_current() -> None:
-    """EnvSpec.current(): exactly the (python, abi) pairs of packaging.tags.sys_tags()."""
-    cases = bad = 0
-    env = EnvSpec.current()
-    bare = EnvSpec(env.requires_python, None, env.implementation)
-    sys_pairs = {(t.interpreter, t.abi) for t in ptags.sys_tags()}
-    for t in ptags.sys_tags():
-        cases += 1
-        if env.compatibility([t.interpreter], [t.abi], [t.platform]) is None:
-            bad += 1
-            print("  VIOLATION current(): own tag rejected", t)
-    pys = [f"{k}{x}{y}" for k in ("cp", "py", "pp") for x in (2, 3) for y in range(0, 21)] + ["py2", "py3"]
-    for py in pys:
-        for abi in ["none", "abi3", *(f"cp{py[2:]}{f}" for f in ("", "m", "t", "d")), f"pypy{py[2:]}_pp73"]:
-            if abi == "abi3" and py.startswith("cp") and (int(py[2]), int(py[3:] or 0)) < (3, 2):
-                continue
-            cases += 1
-            got = bare.compatibility([py], [abi], ["any"])
-            own = f"cp{sys.version_info[0]}{sys.version_info[1]}"
-            # the property does not tell the d / m / u builds of one series apart
-            exp = (py, abi) in sys_pairs or (py == own and abi in (own + "d", own + "m"))
-            if (got is not None) != exp:
-                bad += 1
-                print(f"  VIOLATION current(): {py}-{abi}: dep-logic={got} in sys_tags={exp}")
-    report(f"5 EnvSpec.current() {env} vs packaging.tags.sys_tags()", cases, bad)
-
-
-# ------------------------------------------------------------------ block 6
-def block_order_and_identity(n: int) -> None:
-    """Same questions in another order / on an equal spec written differently give the same answers."""
-    cases = bad = 0
-    for _ in range(n):
-        x, y = 3, R.randrange(0, 21)
-        texts = R.choice([
-            (f">={x}.{y}", f">={x}.{y}.0", f">= {x}.{y}.0.0", f">=0!{x}.{y}"),
-            (f"=={x}.{y}.*", f">={x}.{y},<{x}.{y + 1}", f"~={x}.{y}.0", f">={x}.{y}.0,<{x}.{y + 1}.0,!={x}.{y + 1}.*"),
-            (f"!={x}.{y}.*", f"<{x}.{y}||>={x}.{y + 1}", f">={x}.{y + 1}.0||<{x}.{y}.0", f"!={x}.{y}.*,!={x}.{y}.*"),
-            (f"<={x}.{y}", f"<{x}.{y}||=={x}.{y}", f"<={x}.{y}.0", f"<={x}.{y},<{x}.{y}.1"),
-        ])
-        impl, gil = R.choice(SETTINGS)
-        envs = [EnvSpec.from_spec(t, None, impl, gil) for t in texts]
-        if len(set(envs)) != 1 or len({hash(e) for e in envs}) != 1:
-            bad += 1
-            print("  VIOLATION: equal requires_python texts give unequal / differently hashed EnvSpecs", texts)
-        pairs = [rand_pair(R) for _ in range(15)] + [(f"cp{x}{y}", "abi3"), (f"py{x}{y}", "none"), (f"cp{x}{y}", f"cp{x}{y}")]
-        first = [[e.compatibility([p], [a], ["any"]) for p, a in pairs] for e in envs]
-        again = [[e.compatibility([p], [a], ["any"]) for p, a in reversed(pairs)][::-1] for e in reversed(envs)][::-1]
-        cases += len(pairs) * len(envs)
-        if any(f != first[0] for f in first) or first != again:
-            bad += 1
-            print("  VIOLATION: answers depend on spelling or call order", texts)
-    report("6 equal specs spelled differently, repeated / reordered calls, eq & hash", cases, bad)
-
-
-def note_borderline() -> None:
-    """Not counted: outside the declared argument type (list[str])."""
-    env = EnvSpec.from_spec(">=3.8")
-    as_list = env.compatibility(["py2", "py3"], ["none"], ["any"])
-    as_tuple = env.compatibility(("py2", "py3"), ("none",), ("any",))
-    as_iter = env.compatibility(iter(["py2", "py3"]), iter(["none"]), iter(["any"]))
-    print("[note, borderline, not counted] requires_python='>=3.8' wheel py2.py3-none-any: "
-          f"lists -> {as_list}, tuples -> {as_tuple}, one-shot iterators -> {as_iter} "
-          "(the ABI iterator is exhausted after the first python tag; packaging says installable)")
-
-
-if __name__ == "__main__":
-    print(f"seed {SEED}")
-    block_routes(2500)
-    block_algebra(2500)
-    block_packaging_exhaustive()
-    block_wheel_names(6000)
-    block_current()
-    block_order_and_identity(400)
-    note_borderline()
-    print(f"TOTAL cases={total['cases']} new violations={total['bad']}")
+print()
+print("== H2 (edge of the quantifier: PEP 803 `abi3t`, emitted by the installed packaging.tags for free-threaded CPython)")
+for ver in [(3, 15), (3, 20)]:
+    oracle = set(cpython_tags(ver, abis=[f"cp{ver[0]}{ver[1]}t"], platforms=["any"]))
+    for impl, gil in [("cpython", True), (None, False)]:
+        env = EnvSpec.from_spec(f"=={ver[0]}.{ver[1]}.*", None, impl, gil)
+        for py in [f"cp{ver[0]}{ver[1]}", "cp312"]:
+            got = env.compatibility([py], ["abi3t"], ["any"])
+            print(f"  env {env} impl={impl} gil_disabled={gil}: {py}-abi3t-any -> {got}; "
+                  f"packaging.tags lists it for a free-threaded {ver[0]}.{ver[1]}: {Tag(py, 'abi3t', 'any') in oracle}")
